@@ -26,6 +26,7 @@ import SpsdkVerif.Proofs.MbiRomNegV21
 import SpsdkVerif.Proofs.MbiRomNegEnc
 import SpsdkVerif.Spec.Rotkh
 import SpsdkVerif.Proofs.MbiRomBuilt
+import SpsdkVerif.Proofs.MbiRomVx
 
 namespace SpsdkVerif.Properties.C02
 open SpsdkVerif SpsdkVerif.Mbi
@@ -413,5 +414,116 @@ theorem rom_accepts_encrypted_built (h : Mbi.Hyp co env c cfg signer) (hf : c.fa
   Mbi.Built.rom_accepts_encrypted_built h hf ht ks hk certOk cb wf rwf hrkh hcert
 
 end CertBlockModel
+
+/-! ## header-less "Vx" images (mc56f81xxx / mwct20x2): ROM model `Spec.MbiRomVx` (Spec/MbiRomVx.lean), phase 3
+
+The export side is `Vx.exportImage` (Model/MbiVx.lean; offsets GENERATED from `Mbi_MixinBcaTable`, tied to /repo by the C01
+stream `vx`); the ROM side has its own constants (`vx_spec_consts_agree`).  Certificate: the ISK certificate block is opaque
+bytes in the Vx model; `VxCertOK` says it is an ISK certificate of the format and `cert_hash` is the stored 16-byte hash. -/
+
+/-- the constants of the independent Vx ROM spec are the offsets the builder uses (generated from the current source) -/
+theorem vx_spec_consts_agree :
+    Spec.MbiRomVx.digestOff = IvtConsts.vxImgDigestOffset ∧ Spec.MbiRomVx.digestSize = IvtConsts.vxImgDigestSize
+    ∧ Spec.MbiRomVx.sigOff = IvtConsts.vxImgSignatureOffset ∧ Spec.MbiRomVx.sigOff + Spec.MbiRomVx.sigSize = IvtConsts.vxImgBcaOffset
+    ∧ Spec.MbiRomVx.bcaOff = IvtConsts.vxImgBcaOffset
+    ∧ Spec.MbiRomVx.bcaOff + Spec.MbiRomVx.bcaImageLength = IvtConsts.vxImgBcaImageLengthOffset
+    ∧ Spec.MbiRomVx.bcaOff + Spec.MbiRomVx.bcaFwVersion = IvtConsts.vxImgBcaFwVersionOffset
+    ∧ Spec.MbiRomVx.fcfOff = IvtConsts.vxImgFcfOffset ∧ Spec.MbiRomVx.fcfOff = IvtConsts.vxImgSignedHeaderEnd
+    ∧ Spec.MbiRomVx.iskOff = IvtConsts.vxImgIskOffset ∧ Spec.MbiRomVx.iskOff = IvtConsts.vxImgFcfOffset + IvtConsts.vxImgFcfSize
+    ∧ Spec.MbiRomVx.iskOff + Spec.MbiRomVx.iskCertSize ≤ IvtConsts.vxImgIskHashOffset
+    ∧ Spec.MbiRomVx.iskHashOff = IvtConsts.vxImgIskHashOffset ∧ Spec.MbiRomVx.iskHashSize = IvtConsts.vxImgIskHashSize
+    ∧ Spec.MbiRomVx.dataStart = IvtConsts.vxImgDataStart
+    ∧ Spec.MbiRomVx.iskPubOff + 2 * 32 = Spec.MbiRomVx.iskTbsSize ∧ Spec.MbiRomVx.iskTbsSize + Spec.MbiRomVx.sigSize = Spec.MbiRomVx.iskCertSize := by
+  decide
+
+/-- `vx_rom_accepts (export x)`: every complete Vx image the model exports - plain, CRC in the BCA, ECC signed - passes the
+    ROM checks of its kind (the device compares the ISK hash iff the builder stores it) -/
+theorem vx_rom_accepts (co : CryptoOps) (k : Vx.Kind) (cfg : Vx.Cfg) (signer : Signer) (hw : Vx.cfgWF k cfg = true)
+    (hj : cfg.justHeader = false) (hs : ∀ m, (signer m).length = IvtConsts.vxImgBcaOffset - IvtConsts.vxImgSignatureOffset)
+    (hh : ∀ m, (co.hash .sha256 m).length = IvtConsts.vxImgDigestSize) (hc : k = .signed → Vx.VxCertOK co cfg)
+    (rootPub : Mbi.Bytes) :
+    ∃ e a, Vx.exportImage co k cfg signer = .ok e
+      ∧ Spec.MbiRomVx.romVx co ⟨rootPub, cfg.addHash⟩ (Vx.romKind k) e = .ok a := by
+  cases k with
+  | plain => exact Vx.vx_rom_accepts_plain co _ cfg signer hw
+  | crc => obtain ⟨e, a, h1, h2, _⟩ := Vx.vx_rom_accepts_crc co ⟨rootPub, cfg.addHash⟩ cfg signer hw; exact ⟨e, a, h1, h2⟩
+  | signed => obtain ⟨e, a, h1, h2, _⟩ := Vx.vx_rom_accepts_signed co cfg signer hw hj hs hh (hc rfl) rootPub; exact ⟨e, a, h1, h2⟩
+
+/-- CRC: the ROM insists that the three BCA words describe the WHOLE data part (start 0xC00, up to the end of the image): the
+    authenticated ranges of an accepted export are the CRC words and everything from 0xC00 on -/
+theorem vx_rom_accepts_crc (co : CryptoOps) (env : Spec.MbiRomVx.VxEnv) (cfg : Vx.Cfg) (signer : Signer)
+    (hw : Vx.cfgWF .crc cfg = true) :
+    ∃ e a, Vx.exportImage co .crc cfg signer = .ok e ∧ Spec.MbiRomVx.romVx co env .crc e = .ok a
+      ∧ a.authenticated = [(964, 976), (3072, e.length)] := Vx.vx_rom_accepts_crc co env cfg signer hw
+
+/-- signed: accepted, and exactly two obligations are left - root key → ISK certificate (over its first 72 bytes) and ISK key →
+    image over `dataToSign e` = header[0:0x360] ‖ BCA ‖ data OF THE EMITTED IMAGE with the signature the provider returned -/
+theorem vx_rom_accepts_signed (co : CryptoOps) (cfg : Vx.Cfg) (signer : Signer) (hw : Vx.cfgWF .signed cfg = true)
+    (hj : cfg.justHeader = false) (hs : ∀ m, (signer m).length = IvtConsts.vxImgBcaOffset - IvtConsts.vxImgSignatureOffset)
+    (hh : ∀ m, (co.hash .sha256 m).length = IvtConsts.vxImgDigestSize) (hc : Vx.VxCertOK co cfg) (rootPub : Mbi.Bytes) :
+    ∃ e a, Vx.exportImage co .signed cfg signer = .ok e
+      ∧ Spec.MbiRomVx.romVx co ⟨rootPub, cfg.addHash⟩ .signed e = .ok a
+      ∧ a.obligations = [.ecdsa rootPub (cfg.cert.take 72) (cfg.cert.drop 72),
+                         .ecdsa (slice cfg.cert 8 72) (Vx.dataToSign e) (signer (Vx.dataToSign e))] :=
+  Vx.vx_rom_accepts_signed co cfg signer hw hj hs hh hc rootPub
+
+/-- … and both obligations HOLD (by `verify_sign`, no hypothesis about the signatures) when the ISK certificate is the
+    root key's signature over its to-be-signed part and the image is signed with the private key of the ISK it carries -/
+theorem vx_rom_obligations_hold (laws : CryptoLaws co) (cfg : Vx.Cfg) (signer : Signer) (hw : Vx.cfgWF .signed cfg = true)
+    (hj : cfg.justHeader = false) (hs : ∀ m, (signer m).length = IvtConsts.vxImgBcaOffset - IvtConsts.vxImgSignatureOffset)
+    (hh : ∀ m, (co.hash .sha256 m).length = IvtConsts.vxImgDigestSize) (hc : Vx.VxCertOK co cfg)
+    (alg : SigAlg) (rootSk iskSk : PrivKey) (r r' : Rand)
+    (hroot : cfg.cert.drop 72 = co.sign alg rootSk (cfg.cert.take 72) r')
+    (hisk : slice cfg.cert 8 72 = co.pubOf iskSk) (hsigner : signer = fun m => co.sign alg iskSk m r) :
+    ∃ e a, Vx.exportImage co .signed cfg signer = .ok e
+      ∧ Spec.MbiRomVx.romVx co ⟨co.pubOf rootSk, cfg.addHash⟩ .signed e = .ok a
+      ∧ a.obligations.length = 2 ∧ ∀ ob ∈ a.obligations, holdsEcdsa co alg ob := by
+  obtain ⟨e, a, h1, h2, h3⟩ := Vx.vx_rom_accepts_signed co cfg signer hw hj hs hh hc (co.pubOf rootSk)
+  refine ⟨e, a, h1, h2, by rw [h3]; rfl, ?_⟩
+  intro ob hob
+  rw [h3] at hob
+  simp only [List.mem_cons, List.mem_nil_iff, or_false] at hob
+  rcases hob with rfl | rfl
+  · simp only [holdsEcdsa]; rw [hroot]; exact laws.verify_sign alg rootSk _ r'
+  · simp only [holdsEcdsa]; rw [hisk, hsigner]; exact laws.verify_sign alg iskSk _ r
+
+/-- tamper reduction, signed: a changed byte of the signed ranges (below the digest, BCA, data part) that the ROM still
+    accepts with its ECDSA obligations holding is a forgery of the ISK key's signature -/
+theorem vx_bitflip_rejected_signed (co : CryptoOps) (cfg : Vx.Cfg) (signer : Signer) (hw : Vx.cfgWF .signed cfg = true)
+    (hj : cfg.justHeader = false) (hs : ∀ m, (signer m).length = IvtConsts.vxImgBcaOffset - IvtConsts.vxImgSignatureOffset)
+    (hh : ∀ m, (co.hash .sha256 m).length = IvtConsts.vxImgDigestSize) (hc : Vx.VxCertOK co cfg) (rootPub : Mbi.Bytes)
+    (alg : SigAlg) (sk : PrivKey) (r : Rand) (hsigner : signer = fun m => co.sign alg sk m r)
+    (hpub : slice cfg.cert 8 72 = co.pubOf sk) :
+    ∃ e, Vx.exportImage co .signed cfg signer = .ok e
+      ∧ ∀ (i : Nat) (y : UInt8), Vx.vxSignedPos i → i < e.length → e[i]? ≠ some y →
+          ∀ a, Spec.MbiRomVx.romVx co ⟨rootPub, cfg.addHash⟩ .signed (e.set i y) = .ok a →
+            (∀ ob ∈ a.obligations, holdsEcdsa co alg ob) → Break co :=
+  Vx.vx_tamper_rejected_signed co cfg signer hw hj hs hh hc rootPub alg sk r hsigner hpub
+
+/-- … and without any key: the digest check alone makes such an accepted change a SHA-256 collision -/
+theorem vx_bitflip_rejected_digest (co : CryptoOps) (cfg : Vx.Cfg) (signer : Signer) (hw : Vx.cfgWF .signed cfg = true)
+    (hj : cfg.justHeader = false) (hs : ∀ m, (signer m).length = IvtConsts.vxImgBcaOffset - IvtConsts.vxImgSignatureOffset)
+    (hh : ∀ m, (co.hash .sha256 m).length = IvtConsts.vxImgDigestSize) (env : Spec.MbiRomVx.VxEnv) :
+    ∃ e, Vx.exportImage co .signed cfg signer = .ok e
+      ∧ ∀ (i : Nat) (y : UInt8), Vx.vxSignedPos i → i < e.length → e[i]? ≠ some y →
+          ∀ a, Spec.MbiRomVx.romVx co env .signed (e.set i y) = .ok a → Break co :=
+  Vx.vx_tamper_digest co cfg signer hw hj hs hh env
+
+/-- tamper, CRC: ANY change of ANY single byte of the data part is rejected - unconditionally (CRC-32/MPEG-2 burst property) -/
+theorem vx_bitflip_rejected_crc (co : CryptoOps) (env : Spec.MbiRomVx.VxEnv) (cfg : Vx.Cfg) (signer : Signer)
+    (hw : Vx.cfgWF .crc cfg = true) :
+    ∃ e, Vx.exportImage co .crc cfg signer = .ok e
+      ∧ ∀ (i : Nat) (y : UInt8), 3072 ≤ i → i < e.length → e[i]? ≠ some y →
+          ∀ a, Spec.MbiRomVx.romVx co env .crc (e.set i y) ≠ .ok a := Vx.vx_tamper_rejected_crc co env cfg signer hw
+
+/-- non-vacuity: a signed Vx configuration with a 136-byte ISK certificate of the format (magic 0x4D43, version 1) satisfies
+    `cfgWF` and the decidable part of `VxCertOK` (with `addHash = false` the hash clause is empty) -/
+example : ∃ cfg : Vx.Cfg, Vx.cfgWF .signed cfg = true ∧ cfg.justHeader = false ∧ cfg.addHash = false
+    ∧ cfg.cert.length = Spec.MbiRomVx.iskCertSize ∧ Spec.MbiRom.rd16 cfg.cert 0 = Spec.MbiRomVx.iskMagic
+    ∧ Spec.MbiRom.rd16 cfg.cert 2 = Spec.MbiRomVx.iskVersion ∧ Vx.vxSignedPos 3100 :=
+  ⟨{ app := List.replicate 3200 7, lifecycle := 0x90, fwVersion := 5, cert := [0x43, 0x4D, 1, 0] ++ List.replicate 132 9,
+     certHash := List.replicate 16 2, addHash := false }, by decide +kernel, rfl, rfl, by decide +kernel, by decide +kernel,
+   by decide +kernel, Or.inr (Or.inr (by decide))⟩
+
 
 end SpsdkVerif.Properties.C02
